@@ -205,16 +205,30 @@ class XPathMap(XPathFunction):
         return XPathMap(
             parser=self.parser,
             items=(
-                (k.get_atomized_operand(context), v.evaluate(context))
+                (self.get_key(k, context), v.evaluate(context))
                 for k, v in zip(self._items, self._values)
             )
         )
+
+    def get_key(self, key: ta.XPathTokenType, context: ta.ContextType = None) \
+            -> Optional[ta.AtomicType]:
+        """
+        The atomized value of a key expression of the constructor. An xs:untypedAtomic
+        value is kept as it is, not replaced by its string: the type of the key is part
+        of the type of the map.
+        """
+        value = None
+        for position, value in enumerate(key.atomization(context)):
+            if position:
+                msg = "atomized operand is a sequence of length greater than one"
+                raise self.error('XPTY0004', msg)
+        return value
 
     def _evaluate(self, context: ta.ContextType = None) -> ta.MapDictType:
         _map: ta.MapDictType = {}
 
         for key, value in zip(self._items, self._values):
-            k = key.get_atomized_operand(context)
+            k = self.get_key(key, context)
             if k is None:
                 raise self.error('XPTY0004', 'missing key value')
             dk = dict_key(k)
